@@ -325,4 +325,95 @@ inline u32s g_noise(Tape &t, bool wideExtras, int *arm = nullptr) {
   return s;
 }
 
+
+// ---------------------------------------------------------------------------
+// G_pair: correlated (base, reference) and (source, base) pairs built from one
+// shared pool, so that "same scheme", "same host but other port", "path is a
+// prefix", "equal up to the last segment" ... all occur often.
+inline const std::vector<std::string> &pool_schemes() { static const std::vector<std::string> v = {"s", "t", "http", "S"}; return v; }
+inline GenAuth g_pool_auth(Tape &t) {
+  GenAuth a;
+  static const std::vector<std::string> hosts = {"h", "g", "H", "", "1.2.3.4", "[::1]", "[0:0:0:0:0:0:0:1]", "[v1.a]", "h%41"};
+  static const int kinds[] = {1, 1, 1, 1, 2, 3, 3, 4, 1};
+  uint32_t i = t.below((uint32_t)hosts.size());
+  a.host = hosts[i]; a.hostKind = kinds[i];
+  a.hasUser = t.chance(1, 5);
+  if (a.hasUser) a.user = t.chance(1, 4) ? "" : (t.coin() ? "u" : "w:p");
+  a.hasPort = t.chance(1, 4);
+  if (a.hasPort) a.port = t.chance(1, 4) ? "" : (t.coin() ? "80" : "81");
+  return a;
+}
+inline std::string g_pool_path(Tape &t, bool hasScheme, bool hasAuth, int flavor, int maxSegs = 5) { return g_path(t, hasScheme, hasAuth, flavor, maxSegs); }
+inline GenUri g_base(Tape &t, bool forceScheme, int flavor = SEG_ANY) {
+  GenUri b;
+  b.hasScheme = forceScheme || t.chance(9, 10);
+  if (b.hasScheme) b.scheme = t.pick(pool_schemes());
+  b.hasAuth = t.chance(3, 5);
+  if (b.hasAuth) b.auth = g_pool_auth(t);
+  b.path = g_pool_path(t, b.hasScheme, b.hasAuth, flavor);
+  b.hasQuery = t.chance(1, 4);
+  if (b.hasQuery) b.query = t.coin() ? "q" : "";
+  b.hasFrag = t.chance(1, 8);
+  if (b.hasFrag) b.frag = "bf";
+  return b;
+}
+// returns reference kind: 0 same-scheme absolute, 1 other-scheme absolute, 2 network-path, 3 absolute-path, 4 relative-path, 5 empty path
+inline GenUri g_ref(Tape &t, const GenUri &base, int *kind = nullptr, int flavor = SEG_ANY) {
+  GenUri r;
+  int k = t.weighted({35, 20, 15, 10, 10, 10});
+  static const int map[] = {4, 3, 0, 1, 2, 5};
+  k = map[k];
+  if (kind) *kind = k;
+  auto dotty_rel = [&](bool first_may_have_colon) {
+    int n = t.range(1, 5);
+    std::string p;
+    for (int i = 0; i < n; i++) {
+      std::string sg = g_segment(t, flavor);
+      if (i == 0) {
+        if (sg.empty()) sg = ".";
+        if (!first_may_have_colon && has_colon(sg)) sg = "./" + sg;  // keep it a valid relative-path reference
+      }
+      if (i) p += '/';
+      p += sg;
+    }
+    return p;
+  };
+  switch (k) {
+    case 0:
+      r.hasScheme = true; r.scheme = base.hasScheme ? base.scheme : "s";
+      r.hasAuth = t.chance(1, 3);
+      if (r.hasAuth) r.auth = t.coin() ? g_pool_auth(t) : base.auth;
+      r.path = t.coin() ? g_pool_path(t, true, r.hasAuth, flavor) : (r.hasAuth ? std::string() : dotty_rel(true));
+      break;
+    case 1:
+      r.hasScheme = true; r.scheme = (base.hasScheme && base.scheme == "s") ? "t" : (t.coin() ? "s" : "X");
+      r.hasAuth = t.coin();
+      if (r.hasAuth) r.auth = g_pool_auth(t);
+      r.path = g_pool_path(t, true, r.hasAuth, flavor);
+      break;
+    case 2:
+      r.hasAuth = true; r.auth = t.chance(1, 3) && base.hasAuth ? base.auth : g_pool_auth(t);
+      r.path = g_pool_path(t, false, true, flavor);
+      break;
+    case 3: {
+      int n = t.range(0, 5);
+      r.path = "/";
+      for (int i = 0; i < n; i++) {
+        std::string sg = g_segment(t, flavor);
+        if (i == 0 && sg.empty()) sg = t.coin() ? "." : "..";
+        if (i) r.path += '/';
+        r.path += sg;
+      }
+      break;
+    }
+    case 4: r.path = dotty_rel(false); break;
+    default: break;
+  }
+  r.hasQuery = t.chance(1, 3);
+  if (r.hasQuery) r.query = t.coin() ? "rq" : "";
+  r.hasFrag = t.chance(1, 4);
+  if (r.hasFrag) r.frag = t.coin() ? "rf" : "";
+  return r;
+}
+
 }  // namespace vf
